@@ -1,4 +1,5 @@
 import Neutrino.Props.C02
+import Neutrino.Props.C02Trans
 open Neutrino.BM
 #print axioms C02_replace_guard
 #print axioms C02_reorg_shape
@@ -13,3 +14,6 @@ open Neutrino.BM
 #print axioms C02_replace_only_heavier_counterexample
 #print axioms replace_shape
 #print axioms handle_shape
+#print axioms Neutrino.BM.C02_trans_findPreviousHeaderCheckpoint
+#print axioms Neutrino.BM.C02_trans_replace_guard
+#print axioms Neutrino.BM.C02_trans_BlockHeadersSynced
